@@ -31,6 +31,12 @@ def run(ctx):
         key = "%s[%d]" % (k, n)
         s = XSlice(F, b).operand(t["args"][1])
         direct = s.has_field("SnapshotMetadata", "last_included")
+        # a boundary assembled locally (LogId { index, term }) must take its *index* from the snapshot
+        for blk in b.blocks:
+            for st in blk["st"]:
+                rv = st.get("rv")
+                if rv and rv["k"] == "agg" and rv.get("adt", "").endswith("common::LogId") and st["lhs"]["l"] in s.seen:
+                    direct = direct and XSlice(F, b).operand(agg_field(st, "index")).has_field("SnapshotMetadata", "last_included")
         via = None
         if not direct:
             flds = sorted(set((strip_generics(x[1]), x[2]) for x in s.sources if x[0] == "field" and strip_generics(x[1]).startswith("d_engine_core::raft_role")))
